@@ -107,9 +107,56 @@ func expiredCounted(r *rep.Report) {
 	}
 }
 
+// reusedContext: existence checking on, and a client (an embedding program, the batch endpoint) that
+// uses ONE Context for its consecutive requests.  A location that was never created, or was deleted,
+// stays "not found" for the second and third request as it was for the first, under every TTL.
+func reusedContext(r *rep.Report) {
+	for ttlName, ttl := range ttls {
+		for _, linear := range []bool{false, true} {
+			s, err := drv.NewSys(drv.SysOpts{Linear: linear, TTL: ttl, CheckExistence: true}, cronner.New(true))
+			if err != nil {
+				r.Violate("", "cannot build system: "+err.Error(), nil)
+				continue
+			}
+			ctx := drv.Ctx()
+			var answers []string
+			for i := 0; i < 3; i++ {
+				_, err := s.AddFact(ctx, "nowhere", fmt.Sprintf("f%d", i), `{"a":1}`)
+				answers = append(answers, "add to a never-created location: "+drv.ErrStr(err))
+			}
+			s.CreateLocation(ctx, "gone")
+			s.AddFact(ctx, "gone", "g", `{"a":1}`)
+			s.DeleteLocation(ctx, "gone")
+			for i := 0; i < 2; i++ {
+				_, err := s.AddRule(ctx, "gone", fmt.Sprintf("r%d", i), `{"when":{"pattern":{"a":"b"}},"action":{"code":"1"}}`)
+				answers = append(answers, "rule into a deleted location: "+drv.ErrStr(err))
+			}
+			st, _ := s.PeekStorage(drv.Ctx())
+			stored := 0
+			if ms, ok := st.(*core.MemStorage); ok && ms != nil {
+				ms.Lock()
+				stored = len(ms.State(nil)["nowhere"]) + len(ms.State(nil)["gone"])
+				ms.Unlock()
+			}
+			r.Case(true, fmt.Sprint("reused-context", ttlName, linear))
+			r.Count("reused_context_cases", 1)
+			bad := stored != 0
+			for _, a := range answers {
+				if strings.HasSuffix(a, ": ") {
+					bad = true // no error
+				}
+			}
+			if bad {
+				r.Violate("", "with one Context used for consecutive requests, a never-created or deleted location accepted a write under existence checking", rep.J{"ttl": ttlName, "linear": linear, "answers": answers, "records_stored_for_these_locations": stored})
+			}
+		}
+	}
+}
+
 func twin(r *rep.Report, e rep.Env) {
 	if e.Batch == 0 {
 		expiredCounted(r)
+		reusedContext(r)
 	}
 	nHist := e.Pick(10, 80)
 	for hi := 0; hi < nHist; hi++ {
